@@ -268,7 +268,7 @@ theorem fwd_hyper_real (pi s lo hi v : ℝ) (h1 : lo < v) (h2 : v < hi) :
 
 theorem fwd_tan_real (pi s lo hi v : ℝ) :
     fwd pi s lo hi false v = s * Real.tan (pi * (v - lo) / (hi - lo) - pi / 2) := by
-  unfold fwd; simp
+  unfold fwd; simp [mul_div_assoc]
 
 /-- the same parameter at another transformed coordinate -/
 def «at» (t : IT ℝ) (x : ℝ) : IT ℝ := { t with x := x }
